@@ -15,7 +15,7 @@ def first_diff(a, b):
 
 class C19(Prop):
   id = "C19"
-  quick_examples = 1200
+  quick_examples = 2000
   thorough_examples = 6000
   rule = ("Hypothesis-generated histories on a decorated chart hosted on an instrumented "
           "HsmWithQueues: handlers post_fifo/post_lifo/defer/recall/scribble and query the chart (is_in, "
